@@ -175,6 +175,50 @@ def wyckoff_profile(c):
     return prof
 
 
+def alt_constructors(ctx, L, basis, spins, thr, c1, rp, label):
+    """the same supercell data through the other constructors — Crystal.fromdict(dict, noreduce=False) and a
+    simpleYAML() -> yaml -> fromdict round trip — must give the crystal that the plain constructor gave: atoms per cell,
+    |G|, Wyckoff profile, threshold, and the same lattice up to a unimodular change"""
+    import yaml
+    crystal = X.crystal_module()
+    def compare(cx, how):
+        kind = what = None
+        if [len(a) for a in cx.basis] != [len(a) for a in c1.basis]:
+            kind, what = 'atoms-per-cell', 'atoms per cell %s, plain constructor %s' % ([len(a) for a in cx.basis], [len(a) for a in c1.basis])
+        elif len(cx.G) != len(c1.G):
+            kind, what = 'group-order', '|G| = %d, plain constructor %d' % (len(cx.G), len(c1.G))
+        elif wyckoff_profile(cx) != wyckoff_profile(c1):
+            kind, what = 'wyckoff-structure', 'Wyckoff structure differs from the plain constructor'
+        elif not np.isclose(cx.threshold, c1.threshold, rtol=1e-9, atol=0):
+            kind, what = 'threshold', 'threshold %g, plain constructor %g' % (cx.threshold, c1.threshold)
+        else:
+            T = np.linalg.solve(c1.lattice, cx.lattice)
+            if np.abs(T - np.round(T)).max() > 1e-6 or abs(abs(round(np.linalg.det(np.round(T)))) - 1) > 0:
+                kind, what = 'lattice', 'lattice is not a unimodular re-description of the plain constructor\'s lattice'
+        if kind:
+            ctx.violation('alt-constructor:%s:%s' % (how, kind), '%s: %s(description with threshold %g) -> %s' % (label, how, thr, what),
+                          dict(rp, constructor=how))
+    d = dict(lattice=np.array(L).T.copy(), basis=[[u.copy() for u in a] for a in basis], threshold=thr)
+    if spins is not None: d['spins'] = [list(sl) for sl in spins]
+    ctx.count('alt-constructors')
+    try:
+        compare(crystal.Crystal.fromdict(d, noreduce=False), 'fromdict')
+    except (ArithmeticError, RecursionError):
+        pass
+    except Exception as e:
+        ctx.violation('alt-constructor:fromdict:raises:%s' % type(e).__name__, '%s: Crystal.fromdict raises %r' % (label, e), dict(rp, constructor='fromdict'))
+    try:
+        raw = crystal.Crystal(np.array(L), [[u.copy() for u in a] for a in basis], spins=None if spins is None else [list(sl) for sl in spins],
+                              threshold=thr, noreduce=True, NOSYM=True)
+        d2 = yaml.load(raw.simpleYAML(), Loader=yaml.Loader)
+        compare(crystal.Crystal.fromdict(d2, noreduce=False), 'simpleYAML-roundtrip')
+    except (ArithmeticError, RecursionError):
+        pass
+    except Exception as e:
+        ctx.violation('alt-constructor:simpleYAML-roundtrip:raises:%s' % type(e).__name__, '%s: simpleYAML round trip raises %r' % (label, e),
+                      dict(rp, constructor='simpleYAML-roundtrip'))
+
+
 def elongated_stream(ctx, nprng, n):
     """n x 1 x 1 supercells (n = 3..8, optionally re-described by a unimodular matrix) of crystals with several atoms per
     primitive cell, coordinates perturbed by a sizeable fraction of the threshold: a coherent shift of one sublattice
@@ -233,6 +277,7 @@ def elongated_stream(ctx, nprng, n):
             ctx.violation('elongated:group-order', '%d x 1 x 1 supercell of %s with a coherent sublattice shift of %.1f threshold: |G| = %d, the primitive crystal '
                           'built directly has %d (threshold carried by the reduced crystal: %g)' % (nrep, xc.name, frac, len(c1.G), len(c0.G), c1.threshold), rp)
             continue
+        alt_constructors(ctx, xs.L, basis, spins, thr, c1, rp, '%d x 1 x 1 supercell of %s' % (nrep, xc.name))
         if wyckoff_profile(c1) != wyckoff_profile(c0):
             ctx.violation('elongated:wyckoff-structure', '%d x 1 x 1 supercell of %s: Wyckoff set sizes / point-group orders %s differ from the primitive crystal %s'
                           % (nrep, xc.name, wyckoff_profile(c1), wyckoff_profile(c0)), rp)
@@ -337,6 +382,7 @@ def averaging_stream(ctx, nprng, n):
             ctx.violation('averaging:noise-not-reduced', '%d-fold supercell of %s: rms error of the reduced positions %.2f x amplitude, not smaller than the input noise'
                           % (nrep, xc.name, rms / amp), rp)
             continue
+        alt_constructors(ctx, xs.L, basis, None, thr, c1, rp, '%d-fold supercell of %s' % (nrep, xc.name))
         if len(c1.G) != len(c0.G):
             ctx.violation('averaging:group-order', '%d-fold supercell of %s with independent noise %.1f threshold: |G| = %d, primitive crystal %d'
                           % (nrep, xc.name, frac, len(c1.G), len(c0.G)), rp)
